@@ -149,6 +149,24 @@ func TestCampaign(t *testing.T) {
 					}
 				}
 			}
+			if dg := os.Getenv("VERIF_DIGESTS"); dg != "" && v == nil && !failed {
+				// cross-process determinism leg (C19): one line per case — digest of every store and
+				// every result/event list plus the concrete history, compared by vcheck with the
+				// lines written by a second process that runs the same rapid seed
+				stores, results := runDigest(x)
+				h := sha256.New()
+				for _, n := range c19Stores {
+					h.Write([]byte(n + "=" + stores[n] + ";"))
+				}
+				for _, r := range results {
+					h.Write([]byte(r + "\n"))
+				}
+				ob, _ := json.Marshal(x.Log)
+				if f, err := os.OpenFile(dg, os.O_APPEND|os.O_CREATE|os.O_WRONLY, 0o644); err == nil {
+					fmt.Fprintf(f, "%s %s\n", hex.EncodeToString(h.Sum(nil)[:16]), ob)
+					f.Close()
+				}
+			}
 			if v != nil {
 				failed = true
 				failOps, failV = append([]Op{}, x.Log...), v
